@@ -97,7 +97,7 @@ def run_unit_once(unit, repo=vgen.REPO, rlimit=None, use_cache=True, keep=None, 
     key = hashlib.sha256((text + verus_version() + str(rlimit) + ' '.join(extra)).encode()).hexdigest()
     os.makedirs(CACHE, exist_ok=True)
     cpath = os.path.join(CACHE, 'verus_' + key + '.json')
-    work = os.path.join(CACHE, 'gen')
+    work = os.environ.get('VERIF_GEN_DIR') or os.path.join(CACHE, 'gen')   # (development tools redirect it)
     os.makedirs(work, exist_ok=True)
     gpath = os.path.join(work, unit + '.rs')
     with open(gpath, 'w') as f:
